@@ -17,8 +17,6 @@ import (
 	oid "github.com/nspcc-dev/neofs-sdk-go/object/id"
 )
 
-const fpVanish = "C42:resume-key-leaks-into-next-container"
-
 // vanishingContainers reports container `gone` as existing for the first `after` calls about it only.
 type vanishingContainers struct {
 	gone  cid.ID
@@ -34,7 +32,7 @@ func (c *vanishingContainers) Exists(id cid.ID) (bool, error) {
 	return true, nil
 }
 
-// TestC42ContainerVanishes: a container is removed from the network while the
+// TestC42ContainerVanishes (finding C42:resume-key-leaks-into-next-container, fixed in /repo 9f4b150): a container is removed from the network while the
 // upgrade is between two 1000-key batches of that container. The migration skips
 // removed containers by design; every OTHER container must still be upgraded
 // completely (same views as in the original database).
@@ -107,9 +105,6 @@ func TestC42ContainerVanishes(t *testing.T) {
 				vanishedMidway := cc.seen > after && after > 0
 				rec.Case(vanishedMidway, fmt.Sprintf("%v|%d", l, after), fmt.Sprintf("vanish-after-%d-calls", after))
 				if d := diffViews(only1(orig), only1(got)); d != "" {
-					if rec.Known(fpVanish) {
-						return
-					}
 					t.Fatalf("container c0 (%d associations) reported missing after %d Containers.Exists calls during the upgrade from version 10:\n"+
 						"views of the OTHER container c1 (%d associations) differ from the original:\n%s", l[0], after, l[1], d)
 				}
